@@ -133,11 +133,17 @@ func (*ResultTypeExpr) Kind() Kind { return ResultTypeKind }
 
 // Dup creates a deep copy of the result type given a deep copy of its attribute.
 func (rt *ResultTypeExpr) Dup(att *AttributeExpr) UserType {
-	return &ResultTypeExpr{
+	dup := &ResultTypeExpr{
 		UserTypeExpr: rt.UserTypeExpr.Dup(att).(*UserTypeExpr),
 		Identifier:   rt.Identifier,
-		Views:        rt.Views,
 	}
+	if rt.Views != nil {
+		dup.Views = make([]*ViewExpr, len(rt.Views))
+		for i, v := range rt.Views {
+			dup.Views[i] = &ViewExpr{AttributeExpr: v.AttributeExpr, Name: v.Name, Parent: dup}
+		}
+	}
+	return dup
 }
 
 // ID returns the identifier of the result type.
